@@ -85,7 +85,7 @@ func init() {
 	reg(&family{
 		name: "tx",
 		each: func(th bool, emit func(p ...int)) {
-			for _, v := range variants(th, []int{0, 3}, []int{0, 1, 2, 3, 4, 5, 6, 7}) {
+			for _, v := range append(variants(th, []int{0, 3}, []int{0, 1, 2, 3, 4, 5, 6, 7}), txTypeVariants()...) {
 				base := mkTx(v)
 				for fi, f := range txFields {
 					for m := 0; m < f.nmut(base.Body, th); m++ {
